@@ -393,6 +393,9 @@ def fill_query_params(query, params):
         if isinstance(node, ast.Parameter):
             value = params.pop(0)
             # keep what was written around the placeholder: `? AS x`, `(?)`
+            if value is None:
+                # None is the SQL NULL, not the word `None`
+                return ast.NullConstant(alias=node.alias, parentheses=node.parentheses)
             return ast.Constant(value, alias=node.alias, parentheses=node.parentheses)
 
     # put parameters into query
